@@ -20,13 +20,19 @@ def normCDF (mu sigma x : Rat) : I := I.Phi ((x - mu) / sigma)
 
 def handleND (ins outs : List J) : Verdict :=
   match ins, outs with
-  | [muJ, sgJ, .atom "misc"], [mJ, vJ, loJ, hiJ] =>
-    match muJ.rat?, sgJ.rat?, mJ.flt?, vJ.flt?, loJ.flt?, hiJ.flt? with
-    | some mu, some sg, some m, some v, some lo, some hi =>
+  | [muJ, sgJ, .atom "misc"], [mJ, vJ, loJ, hiJ, r1J, r2J, r3J] =>
+    match muJ.rat?, sgJ.rat?, mJ.flt?, vJ.flt?, loJ.flt?, hiJ.flt?, r1J.flt?, r2J.flt?, r3J.flt? with
+    | some mu, some sg, some m, some v, some lo, some hi, some r1, some r2, some r3 =>
+      -- Rand: a seeded draw is Mu + Sigma·(standard normal variate of that source), bit for bit up to rounding;
+      -- a draw from the package-level source (nil) lies within 40 Sigma of Mu (probability of a miss < 1e-340)
+      let randOk := match r1, r2, r3 with
+        | .fin a, .fin z, .fin b => closeR a (mu + sg * z) (8 * eps * (ratAbs mu + sg * ratAbs z)) 0 && decide (ratAbs (b - mu) ≤ 40 * sg)
+        | _, _, _ => false
       verdictOf "nt normal misc"
         [("normal-mean", m == .fin mu, m.str), ("normal-variance", closeV v (.fin (sg * sg)) 0 (4 * eps), v.str),
+         ("normal-rand", randOk, s!"seeded draw {r1.str}, standard variate of the same source {r2.str}, nil-source draw {r3.str}"),
          ("normal-bounds", closeV lo (.fin (mu - 3 * sg)) (8 * eps * (ratAbs mu + 3 * sg)) 0 && closeV hi (.fin (mu + 3 * sg)) (8 * eps * (ratAbs mu + 3 * sg)) 0, s!"{lo.str} {hi.str}")]
-    | _, _, _, _, _, _ => .badOp "nd misc: parse"
+    | _, _, _, _, _, _, _, _, _ => .badOp "nd misc: parse"
   | [muJ, sgJ, .atom what, xJ], [gJ] =>
     match muJ.rat?, sgJ.rat?, xJ.flt?, gJ.flt? with
     | some mu, some sg, some xv, some g =>
